@@ -3,6 +3,7 @@
 from itertools import permutations
 
 import numpy as np
+from scipy.linalg import orth
 
 from toqito.perms import perm_sign, permutation_operator
 
@@ -93,5 +94,5 @@ def antisymmetric_projection(dim: int, p_param: int = 2, partial: bool = False) 
     anti_proj = anti_proj / p_fac
 
     if partial:
-        anti_proj = np.array(np.linalg.qr(anti_proj))
+        anti_proj = orth(anti_proj)
     return anti_proj
